@@ -258,12 +258,20 @@ class P2WSHSortedMulti:
 
     @classmethod
     def parse(cls, output_record):
+        output_record = output_record.strip()
+        if output_record.startswith("{"):
+            # Specter-Desktop exports the account map as a JSON object with the descriptor in one field
+            try:
+                output_record = json.loads(output_record)["descriptor"].strip()
+            except (ValueError, KeyError, AttributeError):
+                raise ValueError(f"Not a valid wsh sortedmulti: {output_record}")
         # Fix strange slashes that some software (Specter-Desktop) may export
-        output_record = output_record.strip().replace(r"\/", "/")
+        output_record = output_record.replace(r"\/", "/")
 
-        # Regex match the string
-        re_output_results = re.match(
-            r".*wsh\(sortedmulti\(([0-9]*),(.*)\)\)(\#[qpzry9x8gf2tvdw0s3jn54khce6mua7l]{8})?.*",
+        # Regex match the whole string: anything that is not the descriptor or its #checksum is an error
+        # (text after the closing brackets used to be ignored, so a damaged "#" silently skipped the checksum)
+        re_output_results = re.fullmatch(
+            r"wsh\(sortedmulti\(([0-9]*),(.*)\)\)(\#[qpzry9x8gf2tvdw0s3jn54khce6mua7l]{8})?",
             output_record,
         )
         if re_output_results is None:
